@@ -754,7 +754,7 @@ func (fx *FnCtx) convert(x *ssa.Convert) {
 			return
 		}
 		P.need["str_of_bytes"] = true
-		h := st.getHeap(P, "E$uint8", "(Array Int (Array Int Int))")
+		h := st.getHeap(P, elemComp(types.Typ[types.Uint8]), "(Array Int (Array Int Int))")
 		r := fx.define(x, app("Str", "str_of_bytes", app("(Array Int Int)", "select", h, app("Int", "s_arr", v)), app("Int", "s_off", v), app("Int", "s_len", v)))
 		_ = r
 	case fok && fb.Info()&types.IsString != 0:
@@ -770,7 +770,7 @@ func (fx *FnCtx) convert(x *ssa.Convert) {
 		n := app("Int", "slen", v)
 		s := fx.define(x, app("Slice", "mk_slice", arr, Term{"0", "Int"}, n, n))
 		P.need["bytes_of_str"] = true
-		h := st.getHeap(P, "E$uint8", "(Array Int (Array Int Int))")
+		h := st.getHeap(P, elemComp(types.Typ[types.Uint8]), "(Array Int (Array Int Int))")
 		st.setHeap("E$uint8", app(h.Sort, "store", h, app("Int", "s_arr", s), app("(Array Int Int)", "bytes_of_str", v)))
 	default:
 		if P.sorts.sortOf(x.X.Type()) == P.sorts.sortOf(x.Type()) {
